@@ -10,7 +10,8 @@ REPLAY_HINT = ("VRT_WHICH=<0|1|2> VRT_SEED=<seed> _work/h/alloc_fail   (the allo
                "VRT_SEED=<seed> _work/h/note_alloc (failing allocations of a creator thread under concurrency, replayed in lock-step)")
 TRUSTED_BASE = ["gen/sites.py's extraction of the calls / pointer stores / atomic sites of the two constructors and of the conditions dominating them",
                 "Model/NoteModel.v control skeleton (the failing allocation is the choice c = true at pc W1), validated by lock-step replay of note_alloc"]
-PARTIAL = ["nsync_counter_new has no step model of its own (CounterModel starts from a constructed counter): its half is the evaluation of the regenerated "
+PARTIAL = ["KNOWN FINDING (known_findings.json, key alloc_waiter:CRASH; fifth review): the theorems and the other scenarios fail the constructor's OWN allocation only; nsync_note_new's nsync_mu_lock of a contended parent->note_mu may allocate the calling thread's waiter struct (nsync_waiter_new_: unchecked malloc), and a failure THERE crashes instead of returning NULL -- within the property's quantifier ('every allocation performed by the constructors'), reproduced by alloc_waiter, not repaired (a lock acquisition cannot report failure); nsync_counter_new takes no lock and is not affected",
+           "nsync_counter_new has no step model of its own (CounterModel starts from a constructed counter): its half is the evaluation of the regenerated "
            "dominance conditions (C19_counter_new_does_nothing_on_null) and the alloc_fail scenario; the note half is additionally a frame theorem over "
            "NoteModel (C19m_note_new_null_frame) tied to the code by lock-step replay of runs with failing allocations under concurrency",
            "'leaves every existing object usable' is, for notes, the content of the C08 / C09 theorems, which hold for every reachable world of NoteModel "
@@ -21,7 +22,7 @@ def run(tier, seed):
     import mu_common
     res = {"violations": [], "broken": [], "coverage": {}}
     tie = mu_common.tie(res, "note_replay", "NoteModel", [("note_alloc", {}, 300, 3000)], tier, seed)
-    specs = [("alloc_fail", {"VRT_WHICH": w}, 60, 600) for w in (0, 1, 2)] + [("note_alloc", {}, 1500, 20000)]
+    specs = [("alloc_fail", {"VRT_WHICH": w}, 60, 600) for w in (0, 1, 2)] + [("note_alloc", {}, 1500, 20000), ("alloc_waiter", {}, 40, 400)]
     cov = scen_common.run_scenarios(res, specs, tier, seed, {"C19", "UAF"} | scen_common.CRASHES | scen_common.LIVENESS, label_nontrivial="malloc_failed")
     cov["rule"] = ("alloc_fail: builds root/child notes and counters, makes the allocation of one constructor call (child of root, child of a "
                    "child with a deadline, a counter) fail, checks NULL result, byte-for-byte unchanged existing objects, and that the tree and "
